@@ -3,7 +3,8 @@ import copy, filecmp, os, shutil
 from lib import driver as D
 
 MUTANTS = ["dropVersion", "typeCaseInsensitive", "keepTrailingSlash", "fragmentKeepsHash", "versionWildcard", "canonSwapOrder"]
-CHUNK = 40000            # observation records per judge run (bounds TLC's heap)
+CHUNK = 60000            # observation records per judge run (bounds TLC's heap)
+JUDGE_WORKERS = 5        # TLC re-reads the observation file once per worker (WorkerValue.demux): few workers are faster
 
 
 def run(ctx):
@@ -78,7 +79,7 @@ def judge_all(ctx, obs, tag):
         path = ctx.path("%s-%d.ndjson" % (tag, n))
         D.write_ndjson(path, obs[start:start + CHUNK])
         verdicts += D.judge(ctx, "C19_Judge", "C19_judge.cfg", path, params={"CasesFile": ctx.path("cases.ndjson")},
-                            tag="%s-%d" % (tag, n))
+                            tag="%s-%d" % (tag, n), workers=JUDGE_WORKERS)
     return verdicts
 
 
@@ -104,7 +105,7 @@ def corrupt_probe(ctx, obs):
     good = [o for o in obs if o["aspect"] == "litparse" and o["cs"]["kind"] == "rest" and o["p1"]["k"] == "ok"][-1]
     D.write_ndjson(ctx.path("corrupt.ndjson"), victims + [good])
     vs = D.judge(ctx, "C19_Judge", "C19_judge.cfg", ctx.path("corrupt.ndjson"), params={"CasesFile": ctx.path("cases.ndjson")},
-                 tag="judge-corrupt")
+                 tag="judge-corrupt", workers=2)
     bad = sorted(v["id"] for v in vs if not v["ok"])
     if bad != sorted(v["id"] for v in victims):
         raise D.Inconclusive("corrupted-record probe: judge rejected %s, expected %s" % (bad, sorted(v["id"] for v in victims)))
